@@ -284,7 +284,39 @@ func Rename(fs FS, oldName, newName string) error {
 	if fs, ok := fs.(RenameFS); ok {
 		return fs.Rename(oldName, newName)
 	}
+	if fs, ok := fs.(MountFS); ok {
+		oldMount, oldSubPath := fs.Mount(oldName)
+		newMount, newSubPath := fs.Mount(newName)
+		if !sameFS(oldMount, newMount) {
+			// moving between two file systems is up to the MountFS itself
+			return &LinkError{Op: "rename", Old: oldName, New: newName, Err: ErrNotImplemented}
+		}
+		err := Rename(oldMount, oldSubPath, newSubPath)
+		return renameErrNames(err, oldName, newName)
+	}
 	return &LinkError{Op: "rename", Old: oldName, New: newName, Err: ErrNotImplemented}
+}
+
+// sameFS reports whether 'a' and 'b' are the same file system value
+func sameFS(a, b FS) (same bool) {
+	defer func() {
+		if recover() != nil {
+			same = false // values of this type cannot be compared
+		}
+	}()
+	return a == b
+}
+
+// renameErrNames returns 'err', the result of a rename on a file system resolved with Mount(), in terms of the caller's names
+func renameErrNames(err error, oldName, newName string) error {
+	switch e := err.(type) {
+	case *LinkError:
+		return &LinkError{Op: e.Op, Old: oldName, New: newName, Err: e.Err}
+	case *PathError:
+		return &LinkError{Op: "rename", Old: oldName, New: newName, Err: e.Err}
+	default:
+		return err
+	}
 }
 
 // Stat attempts to call an optimized fs.Stat(), falls back to fs.Open() and file.Stat().
